@@ -55,19 +55,20 @@ fn main() {
     let op = OPS[inp("op") as usize];
     match plan.scenario.as_str() {
         "c13_router" => {
-            let (p1, p2, m1, m2) = (text(&plan, "p1"), text(&plan, "p2"), inp("mask1"), inp("mask2"));
+            let n = if inp("nroutes") == 0 { 2 } else { inp("nroutes") as usize };
+            let routes: Vec<(String, u64)> = (1..=n).map(|r| (text(&plan, &format!("p{}", r)), inp(&format!("mask{}", r)))).collect();
             let mut b = RouterBuilder::from_recorder(rec(0));
-            b.add_route(mask_of(m1), p1.clone(), rec(1));
-            b.add_route(mask_of(m2), p2.clone(), rec(2));
+            for (r, (p, m)) in routes.iter().enumerate() { b.add_route(mask_of(*m), p.clone(), rec(r + 1)); }
             let router = b.build();
             apply(&router, op, &name);
             let kbit = match op { "describe_counter" | "register_counter" => 1, "describe_gauge" | "register_gauge" => 2, _ => 4 };
             // reference: longest route for this kind that is a prefix of the name; a later identical pattern replaces the earlier one; else default
-            let a1 = m1 & kbit != 0 && name.starts_with(&p1);
-            let a2 = m2 & kbit != 0 && name.starts_with(&p2);
-            let want = if a1 && a2 { if p2.len() >= p1.len() { 2 } else { 1 } } else if a1 { 1 } else if a2 { 2 } else { 0 };
+            let mut want = 0usize; let mut best = 0usize;
+            for (r, (p, m)) in routes.iter().enumerate() {
+                if m & kbit != 0 && name.starts_with(p.as_str()) && (want == 0 || p.len() >= best) { want = r + 1; best = p.len(); }
+            }
             let got = log.lock().unwrap().clone();
-            println!("routes ({:?} mask {}) -> r1, ({:?} mask {}) -> r2; {} {:?}: delivered to {:?}, expected recorder {}", p1, m1, p2, m2, op, name, got, want);
+            println!("routes {:?} -> r1..; {} {:?}: delivered to {:?}, expected recorder {}", routes, op, name, got, want);
             if !(got.len() == 1 && got[0].0 == want && got[0].1 == op && got[0].2 == name) { v.push("longest_applicable_route_wins"); }
         }
         "c13_filter" => {
